@@ -174,4 +174,26 @@ def fold_module_constants(tree: ast.Module) -> int:
             st.value = ast.copy_location(lit, val)
             ast.fix_missing_locations(st)
             n_folded += 1
+    # sub-expressions of module-level tables that BUILD a new constant object (list(X), X + Y, a comprehension over constants) are read as the
+    # literal they build; a bare name is left alone (it denotes the shared object itself, and sharing is something rules look at)
+    class Fold(ast.NodeTransformer):
+        def generic_visit(self, node):
+            if isinstance(node, (ast.FunctionDef, ast.AsyncFunctionDef, ast.ClassDef, ast.Lambda)):
+                return node
+            if isinstance(node, (ast.Call, ast.BinOp, ast.ListComp, ast.DictComp)) and not _is_literal(node):
+                try:
+                    lit = _literal(_ev(node, env))
+                    nonlocal n_folded
+                    n_folded += 1
+                    return ast.copy_location(lit, node)
+                except _No:
+                    pass
+                except Exception:
+                    pass
+            return super().generic_visit(node)
+    if env:
+        for st in tree.body:
+            if isinstance(st, (ast.Assign, ast.AnnAssign, ast.Expr)) and getattr(st, "value", None) is not None:
+                st.value = Fold().visit(st.value)
+                ast.fix_missing_locations(st)
     return n_folded
